@@ -4,6 +4,12 @@ VERIF = os.path.dirname(os.path.dirname(os.path.abspath(__file__)))
 ALL = ["C%02d" % i for i in range(1, 19)]
 
 CLAIMS = {
+    "C14": dict(cat="proof", design="§7 C14", technique="Lean 4 theorems about the footnote numbering machine for all definition sets and reference sequences + replay of the real handler's call log through the model",
+                text="Theorems (Lean kernel) for ALL definition sets and reference sequences: emitted notes are the distinct defined referenced keys in order of first reference, duplicate-free; every reference occurrence becomes a footnote_ref iff defined and carries the final number of its note (repeats reuse it); every emitted note is referenced; items are numbered 1..n. Tied to the code by replaying the exact call sequence of parse_inline_footnote on generated documents through the model (indices, final notes, section items). The HTML-level bijection (ids/hrefs, one section, after the body, AST carries the same notes) is evaluated on the implementation.",
+                note="Trusted: Lean kernel + standard axioms; that the handler is called in document order and sees the complete definition table is observed in the call log, not proved; HTML template shapes of footnote_ref/footnote_item are matched by regex in the oracle."),
+    "C17": dict(cat="proof", design="§7 C17", technique="Lean 4 theorems about a model of __main__.cli for every conversion function and flag combination + real-subprocess correspondence over the flag x channel product",
+                text="Theorems (Lean kernel), for every conversion function, flag combination, file system and non-empty content: stdout = library text + newline; -o file = library text unchanged; -m, -f and stdin agree; each flag reaches the documented create_markdown argument; default plugin list iff no -p. Tied to the code by running the real `python -m mistune` over {escape}x{hardwrap}x{html,markdown,rst}x plugin sets x{-m,-f,stdin}x{stdout,-o} (sampled in quick, complete in thorough) and comparing with the model's prescribed outcome executed with the real library (exit status and exceptions included).",
+                note="Trusted: Lean kernel + standard axioms; argparse; UTF-8 locale fixed (PYTHONUTF8=1); the library's conversion is a parameter of the theorems."),
     "C15": dict(cat="proof", design="§7 C15", technique="Lean 4 theorem (invariant over the fold) about a model of render_toc_ul for all level lists + string-exact correspondence; hook/directive clauses tested",
                 text="Theorem toc_wf (Lean kernel): for EVERY list of levels (any naturals, any length, any jumps) the output of the model of render_toc_ul passes a content-model checker with nothing left open, contains each entry exactly once in order, and nests each entry under exactly the chain of closest preceding strictly shallower entries. Tied to the code by string-exact comparison on all level sequences up to length 5/6 over 1..6 plus long random walks. The hook/directive clauses (unique ids in document order, selection by level range, entry text) are evaluated on the implementation against an independent computation from the token list (tested, not proved).",
                 note="Trusted: Lean kernel + propext/Quot.sound; the abstraction of each <a> entry to an item event; html.parser as independent nesting oracle. Entry texts are compared modulo surrounding ASCII whitespace (a setext heading's TOC entry carries a trailing newline)."),
